@@ -83,6 +83,31 @@ def run_property(pid, tier, jobs, verbose=False, record_baseline=False):
             import traceback
             extra = [{"id": f"{pid}.extra", "kind": "lemma", "status": "error", "backend": "-", "secs": 0,
                       "props": [pid], "detail": traceback.format_exc()[-1500:]}]
+    # thorough tier: bounded native exploration with the property's oracle (never counted as proved; a hit is a real
+    # failing input on the real code)
+    bounded = []
+    if tier == "thorough":
+        try:
+            import subprocess
+            script = os.path.join(ROOT, "findings", "native_search.py")
+            p_ = subprocess.run(["/venv/bin/python", script, pid, str(seed), "1500"], capture_output=True, text=True, timeout=3000,
+                                cwd=os.environ.get("HIVE_REPO", "/repo"))
+            out_ = p_.stdout.strip().splitlines()
+            if out_ and "no native oracle" not in p_.stdout:
+                hit = any(l.startswith("REPRODUCED") for l in out_)
+                bounded.append({"what": "findings/native_search.py: random instruction/update/tick scenarios through the public API, property oracle after every operation",
+                                "bound": "1500 scenarios x 12 operations, seed " + str(seed), "hit": hit, "output": "\n".join(out_[-3:])[:600]})
+                if hit:
+                    extra_hit = {"id": f"{pid}.bounded_native_search", "kind": "bounded", "status": "refuted", "backend": "native-oracle",
+                                 "secs": 0.0, "props": [pid], "detail": "\n".join(out_[-3:])[:800]}
+                else:
+                    extra_hit = None
+            else:
+                extra_hit = None
+        except Exception as e_:  # noqa
+            extra_hit = None
+    else:
+        extra_hit = None
     # ---- classify
     obs = []
     fn_summ = []
@@ -100,6 +125,8 @@ def run_property(pid, tier, jobs, verbose=False, record_baseline=False):
                     continue
             obs.append(o)
     obs.extend(extra)
+    if extra_hit is not None:
+        obs.append(extra_hit)
     kf = [f for f in known_findings() if f["property"] == pid]
     violations, known_hits, undecided = [], [], []
     for o in obs:
@@ -203,7 +230,7 @@ def run_property(pid, tier, jobs, verbose=False, record_baseline=False):
             "undischarged": [{"id": o["id"], "status": o["status"], "backend": o["backend"]} for o in obs if o["status"] != "proved"],
             "known_findings_matched": sorted(printed_known),
             "not_decided": info.get("not_decided", []),
-            "bounded": info.get("bounded", []),
+            "bounded": info.get("bounded", []) + bounded,
             "explanation": info.get("explanation", ""),
             "obligation_list": [{"id": o["id"], "status": o["status"], "backend": o["backend"], "secs": o.get("secs", 0)} for o in obs],
         },
